@@ -18,8 +18,8 @@ Instrumented are exactly the pool sites of kcp.go (`Gen.poolSites`):
   copy-out: use, put), in parse_ack (put, `data = nil`, the segment stays in snd_buf), in parse_una
   (put only if not yet recycled), `parse_data` (get for the copy of a NEW segment, nothing for a
   duplicate), and phase 5 of flush (reads `segment.data` of the segments it transmits: use; acked
-  segments are skipped).  A `use` is logged for every un-acked segment of snd_buf in a full flush,
-  a superset of the transmitted ones (a superset of uses can only make the discipline harder).
+  segments are skipped; the `use` events of a flush are exactly the segments the model's phase 5
+  decides to send, and the harness checks them against the PUSH segments on the wire).
   `Get()` always returns a fresh id: `sync.Pool` may of course hand a recycled buffer out again, which
   is the same as a fresh one for the discipline (the harness numbers acquisitions, not addresses).
 -/
@@ -252,10 +252,14 @@ def inputLoopO (regular : Bool) : Nat → Bytes → InLoopO → InLoopO
 
 /-! ### flush -/
 
-/-- phase 5 reads `segment.data` of the segments it transmits; acked segments are skipped -/
-def useUnacked : List SegO → Ghost → Ghost
+/-- phase 5 reads `segment.data` of exactly the segments it transmits — not acked, and `needsend`
+(the decision of `Kcp.xmitDec` on the segment as phase 4 left it); `c` = number of segments phase 4
+of the same flush admitted (`newSegsCount`) -/
+def useSent (k : Kcp) (now : U32) (c : Nat) : List SegO → Ghost → Ghost
   | [], g => g
-  | x :: rest, g => useUnacked rest (if x.s.acked then g else g.use x.buf)
+  | x :: rest, g =>
+    useSent k now c rest
+      (if x.s.acked = false ∧ (xmitDec k now (resentOf k) c x.s).1 = true then g.use x.buf else g)
 
 structure FlushResO where
   o        : KcpO
@@ -265,12 +269,15 @@ structure FlushResO where
 deriving Repr
 
 /-- `flush`: phase 4 moves `count` segments (with their buffers) from snd_queue to the end of
-snd_buf, phase 5 rewrites header fields in place and reads the data of what it transmits -/
+snd_buf and stamps conv/cmd/sn/ts on them (`sb4`), phase 5 rewrites header fields in place (`sb5`)
+and reads the data of what it transmits -/
 def flushO (o : KcpO) (full : Bool) (now : U32) : FlushResO :=
   let r := o.k.flush full now
-  let c := (flushAd o.k now).count
-  let sb1 := reattach r.k.snd_buf (o.sb ++ o.sq.take c)
-  ⟨{ o with k := r.k, sq := o.sq.drop c, sb := sb1, gh := if full then useUnacked sb1 o.gh else o.gh },
+  let ad := flushAd o.k now
+  let sb4 := reattach ad.buf (o.sb ++ o.sq.take ad.count)
+  let sb5 := reattach r.k.snd_buf sb4
+  ⟨{ o with k := r.k, sq := o.sq.drop ad.count, sb := sb5,
+            gh := if full then useSent o.k now ad.count sb4 o.gh else o.gh },
    r.outs, r.interval, r.panic⟩
 
 structure InResO where
